@@ -456,48 +456,49 @@ var ops3 = []string{"<==>", "==>", "...", "&^", "<<", ">>", "..", "::", ":=", "=
 
 func lex(s string) []tok {
 	var out []tok
+	rs := []rune(s)
 	i := 0
-	for i < len(s) {
-		c := s[i]
+	for i < len(rs) {
+		c := rs[i]
 		switch {
 		case c == ' ' || c == '\t' || c == '\n':
 			i++
-		case unicode.IsLetter(rune(c)) || c == '_':
+		case unicode.IsLetter(c) || c == '_':
 			j := i
-			for j < len(s) && (unicode.IsLetter(rune(s[j])) || unicode.IsDigit(rune(s[j])) || s[j] == '_') {
+			for j < len(rs) && (unicode.IsLetter(rs[j]) || unicode.IsDigit(rs[j]) || rs[j] == '_') {
 				j++
 			}
-			out = append(out, tok{"id", s[i:j]})
+			out = append(out, tok{"id", string(rs[i:j])})
 			i = j
 		case c >= '0' && c <= '9':
 			j := i
 			isf := false
-			for j < len(s) && (s[j] >= '0' && s[j] <= '9' || s[j] == '.' || s[j] == 'e' || s[j] == 'E' ||
-				((s[j] == '-' || s[j] == '+') && (s[j-1] == 'e' || s[j-1] == 'E'))) {
-				if s[j] == '.' {
-					// ".." is the range operator, not a decimal point
-					if j+1 < len(s) && s[j+1] == '.' {
+			for j < len(rs) && (rs[j] >= '0' && rs[j] <= '9' || rs[j] == '.' || rs[j] == 'e' || rs[j] == 'E' ||
+				((rs[j] == '-' || rs[j] == '+') && (rs[j-1] == 'e' || rs[j-1] == 'E'))) {
+				if rs[j] == '.' {
+					if j+1 < len(rs) && rs[j+1] == '.' {
 						break
 					}
 					isf = true
 				}
-				if s[j] == 'e' || s[j] == 'E' {
+				if rs[j] == 'e' || rs[j] == 'E' {
 					isf = true
 				}
 				j++
 			}
 			if isf {
-				out = append(out, tok{"float", s[i:j]})
+				out = append(out, tok{"float", string(rs[i:j])})
 			} else {
-				out = append(out, tok{"int", s[i:j]})
+				out = append(out, tok{"int", string(rs[i:j])})
 			}
 			i = j
 		default:
 			matched := false
+			rest := string(rs[i:])
 			for _, o := range ops3 {
-				if strings.HasPrefix(s[i:], o) {
+				if strings.HasPrefix(rest, o) {
 					out = append(out, tok{"op", o})
-					i += len(o)
+					i += len([]rune(o))
 					matched = true
 					break
 				}
